@@ -146,7 +146,7 @@ macro_rules! range_harnesses {
                 let st = match RangeCoderState::<W, S>::new(lower, range) { Ok(s) => s, Err(_) => return };
                 let src = Sink { buf: any_arr::<W, 8>(), n: any(), pos: 0, cap: 8 };
                 assume(src.n <= 1);
-                let mut dec = match Dec::from_raw_parts(src, st, point) { Ok(d) => d, Err(_) => { assert!(point.wrapping_sub(lower) >= range, "C10: from_raw_parts rejected a valid point"); return; } };
+                let mut dec = match Dec::from_raw_parts(src, st, point) { Ok(d) => d, Err(_) => { assert!(point.wrapping_sub(lower) >= range, "C10/C02: from_raw_parts rejected a valid point"); return; } };
                 let e = any_entry::<Pr, P>(true);
                 let scale = range >> P;
                 // quantile = d / scale, stated without a second division:  q >= x  <=>  d >= scale*x
